@@ -285,6 +285,7 @@ template<typename Fam> void register_quantile_family(const std::string& name, in
     kll_smaller_k_merge_mode() = false;
     const std::string ctx = "variant=" + std::to_string(v) + " k=" + std::to_string(s.get_k()) + " n=" + std::to_string(s.get_n());
     const std::string b = Fam::write(s, false), st = Fam::write(s, true);
+    check_header_variants(name.substr(0, name.find('_')), b, [&](unsigned h) { return s.serialize(h); }, ctx);
     Fam::check(s, st, ctx + " path=stream");
     if (b != st) {
       size_t i = 0; while (i < b.size() && i < st.size() && b[i] == st[i]) ++i;
@@ -367,6 +368,7 @@ template<typename Fam> void register_fi_family(const std::string& name, int nvar
     auto s = Fam::gen(v, r, small);
     const std::string ctx = "variant=" + std::to_string(v) + " active=" + std::to_string(s.get_num_active_items());
     const std::string b = Fam::write(s, false), st = Fam::write(s, true);
+    check_header_variants(name.substr(0, name.find('_')), b, [&](unsigned h) { return s.serialize(h); }, ctx);
     Fam::check(s, b, ctx + " path=bytes");
     if (b != st) { count(name + "_paths_differ"); Fam::check(s, st, ctx + " path=stream"); }
     count("decoded_" + name);
@@ -428,6 +430,7 @@ template<typename Fam> void register_cm_family(const std::string& name, int nvar
     auto s = Fam::gen(v, r, small);
     const std::string ctx = "variant=" + std::to_string(v);
     const std::string b = Fam::write(s, false), st = Fam::write(s, true);
+    check_header_variants(name.substr(0, name.find('_')), b, [&](unsigned h) { return s.serialize(h); }, ctx);
     Fam::check(s, b, ctx + " path=bytes");
     if (b != st) { count(name + "_paths_differ"); Fam::check(s, st, ctx + " path=stream"); }
     count("decoded_" + name);
